@@ -298,3 +298,48 @@ parity = Fn(U_ + 'ipiv_parity', ret='r', level='int',
                    ('(-1_i32).pow(par)', 'replace', '({ proof { assert(sorts(ipiv@, ts_)); } (-1_i32).pow(par) })')])
 UNITS.append(Unit('C11_parity', 'C11', [parity], types=core.TYPES, type_spec=core.TYPE_SPEC, spec=c15.SPEC + PAR_SPEC + c01.PERM_SWAP_LEMMA, preludes=('fax_l0', 'fmeth', 'stdspec'), broadcast=('l0',), level='int',
                   notes='ipiv_parity returns (-1)^k for a sequence of k proper transpositions that sorts the pivot permutation (its sign); the cycle-chasing loop terminates (misplaced positions decrease)'))
+
+
+def c15_diag():
+    from contracts import C15 as c15_
+    return c15_.mdiag
+
+
+def mlu_full():
+    """contract-only view of Matrix::lu: union of what C11_matrix_lu and C11_matrix_lu_reconstruct prove"""
+    return Fn(IM + 'lu', ret='r', level='L1', valid='self.nrows == self.ncols', requires=['C11.mlu.wf:: wf(*self)'],
+              ensures=['C11.mlu.valid:: self.nrows == self.ncols',
+                       'C11.mlu.shape:: r.0.nrows == self.nrows && r.0.ncols == self.ncols && wf(r.0)',
+                       'C11.mlu.permutation:: is_perm32(r.1@, self.nrows as int)',
+                       'C11.mlu.l_bounded:: bounded(r.0.data.v@, self.nrows as int, self.nrows as int)',
+                       'C11.mlu.reconstruct:: factored(self.data.v@, r.0.data.v@, r.1@, self.nrows as int, self.nrows as int)'])
+
+# ---------------------------------------------------------------- determinant = signed product of U's diagonal
+DET_SPEC = r'''
+/// product of the diagonal of the n x n array f
+pub open spec fn diag_prod(f: Seq<f64>, n: int, k: int) -> real decreases k { if k <= 0 { 1real } else { diag_prod(f, n, k - 1) * rv(at2(f, n, k - 1, k - 1)) } }
+pub proof fn lemma_rprod_diag(d: Seq<f64>, f: Seq<f64>, n: int, k: int)
+    requires 0 <= k <= d.len(), forall|i: int| 0 <= i < d.len() ==> d[i] == at2(f, n, i, i)
+    ensures rprod(d, k) == diag_prod(f, n, k)
+    decreases k
+{ if k > 0 { lemma_rprod_diag(d, f, n, k - 1); } }
+/// det A = sign(P) * prod_i U[i,i] for some factorisation P A = L U produced by the pivoted elimination (property C11)
+pub open spec fn det_witness(a: Matrix, r: f64, f: Seq<f64>, piv: Seq<i32>, s: i32) -> bool {
+    f.len() == a.nrows * a.nrows && factored(a.data.v@, f, piv, a.nrows as int, a.nrows as int) && is_perm32(piv, a.nrows as int)
+        && is_sign(piv, s) && rv(r) == diag_prod(f, a.nrows as int, a.nrows as int) * (s as real)
+}
+pub open spec fn is_det(a: Matrix, r: f64) -> bool { exists|f: Seq<f64>, piv: Seq<i32>, s: i32| #[trigger] det_witness(a, r, f, piv, s) }
+'''
+prod_u = Fn(U_ + 'prod', ret='r', level='L1', ensures=['C04.prod.def:: rv(r) == rprod(x@, x@.len() as int)'],
+            rewrites=[('x.iter().product()', '({ let c_ = x.to_vec(); proof { assert(c_@ =~= x@); } vprod(c_) })', 'R6c: `slice.iter().product()` is the in-order product of the elements, i.e. vprod of a copy (std Product<&f64> for f64)')])
+vprod_m = Fn(core.IV + 'prod', ret='r', level='L1', ensures=['C04.vec.prod.def:: rv(r) == rprod(self.v@, self.v@.len() as int)'])
+det = Fn(IM + 'det', ret='r', level='L1', valid='self.nrows == self.ncols',
+         requires=['C11.det.wf:: wf(*self)'],
+         ensures=['C11.det.valid:: self.nrows == self.ncols', 'C11.det.signed_product:: is_det(*self, r)'],
+         rewrites=[('lu.diag().prod() * ipiv_parity(&p) as f64',
+                    '({ let d_ = lu.diag(); let pr_ = d_.prod(); let s_ = ipiv_parity(&p); let out_ = pr_ * s_ as f64; '
+                    'proof { lemma_rprod_diag(d_.v@, lu.data.v@, self.nrows as int, self.nrows as int); assert(det_witness(*self, out_, lu.data.v@, p@, s_)); } out_ })',
+                    'R31: the result expression in A-normal form')])
+UNITS.append(Unit('C11_det', ('C11', 'C04'), [prod_u, vprod_m, det], use=core.core_stubs() + [c15_diag(), mlu_full(), parity], types=core.TYPES, type_spec=core.TYPE_SPEC,
+                  spec=c01.SPEC + c01.LU_SPEC + REC_SPEC + PAR_SPEC + DET_SPEC, preludes=PRE, broadcast=BC, level='L1', rlimit=100,
+                  notes='Matrix::det is the product of the diagonal of U times the sign of the pivot permutation for the factorisation P A = L U it computes; prod is the in-order product'))
